@@ -1,50 +1,155 @@
+// saocheck decides structural clauses of the properties C01..C20 of
+// SAONetwork/sao-consensus from /repo's current source (static analysis only).
 package main
 
 import (
+	"encoding/json"
+	"flag"
 	"fmt"
 	"os"
+	"sort"
+	"strconv"
+	"strings"
 	"time"
 
 	"golang.org/x/tools/go/ssa"
 
+	"saoverif/internal/core"
+	"saoverif/internal/eff"
 	"saoverif/internal/prog"
+	"saoverif/internal/rules"
 	"saoverif/internal/term"
 )
 
 func main() {
+	prop := flag.String("p", "", "property id (C01..C20) or 'all'")
+	tier := flag.String("tier", "quick", "quick|thorough")
+	repo := flag.String("repo", "/repo", "repository root")
+	verif := flag.String("verif", "/verif", "verif root (evidence, known findings)")
+	dump := flag.String("dump-terms", "", "debug: print terms of a function")
+	caps := flag.Bool("caps", false, "debug: print the capability matrix")
+	explain := flag.String("explain", "", "print a violation file")
+	flag.Parse()
+	if *explain != "" {
+		b, err := os.ReadFile(*explain)
+		if err != nil {
+			fmt.Println(err)
+			os.Exit(2)
+		}
+		var m map[string]any
+		json.Unmarshal(b, &m)
+		fmt.Printf("property %v rule %v\nconstruct %v\nwhere %v\n%v\n", m["property"], m["rule"], m["construct_key"], m["where"], m["detail"])
+		if w, ok := m["witness"].([]any); ok {
+			for _, x := range w {
+				fmt.Println("   ", x)
+			}
+		}
+		fmt.Println("re-run: saocheck -p", m["property"], "-tier", m["tier"])
+		return
+	}
+	if t := os.Getenv("VERIF_TIER"); t == "quick" || t == "thorough" {
+		*tier = t
+	}
+	seed, _ := strconv.ParseInt(os.Getenv("VERIF_SEED"), 10, 64)
 	t0 := time.Now()
-	p, err := prog.Load("/repo", prog.Quick)
+	pt := prog.Quick
+	if *tier == "thorough" {
+		pt = prog.Thorough
+	}
+	p, err := prog.Load(*repo, pt)
 	if err != nil {
-		fmt.Println("ERR", err)
+		fmt.Println("UNDECIDED load:", err)
 		os.Exit(2)
 	}
 	p.BuildGraph()
+	roots, rerr := p.Roots()
 	mods := term.BuildMods(p)
-	fmt.Println("loaded", time.Since(t0))
-	for _, name := range os.Args[1:] {
-		f := p.Func(name)
-		if f == nil {
-			fmt.Println("no func", name)
-			continue
+	et := eff.Build(p, mods)
+	if *dump != "" {
+		dumpTerms(p, mods, *dump)
+		return
+	}
+	if *caps {
+		for _, r := range roots {
+			if r.Kind == "query" {
+				continue
+			}
+			fmt.Printf("%s %s (%s)\n", r.Kind, r.Name, p.Name(r.Fn))
+			for _, c := range eff.Caps(et.Reach(r.Fn)) {
+				fmt.Println("    ", c)
+			}
 		}
-		r := term.NewResolver(p, mods, f)
-		fmt.Println("==", name)
-		for _, b := range f.Blocks {
-			for _, ins := range b.Instrs {
-				switch x := ins.(type) {
-				case *ssa.If:
-					fmt.Printf("  b%d %s IF %s\n", b.Index, p.Pos(x.Cond.Pos()), r.Of(x.Cond))
-				case *ssa.Call:
-					fmt.Printf("  b%d %s CALL %s\n", b.Index, p.Pos(x.Pos()), r.Of(x))
-				case *ssa.Store:
-					fmt.Printf("  b%d %s STORE %s := %s\n", b.Index, p.Pos(x.Pos()), r.Of(x.Addr), r.Of(x.Val))
-				case *ssa.Return:
-					s := ""
-					for _, v := range x.Results {
-						s += r.Of(v).String() + "; "
-					}
-					fmt.Printf("  b%d %s RETURN %s\n", b.Index, p.Pos(x.Pos()), s)
+		for _, u := range et.Unres {
+			fmt.Println("unres:", u)
+		}
+		return
+	}
+	var ids []string
+	if *prop == "all" {
+		for id := range rules.Registry {
+			ids = append(ids, id)
+		}
+		sort.Strings(ids)
+	} else {
+		ids = strings.Split(*prop, ",")
+	}
+	exit := 0
+	for _, id := range ids {
+		chk := rules.Registry[id]
+		if chk == nil {
+			fmt.Println("UNDECIDED unknown property", id)
+			os.Exit(2)
+		}
+		run := core.NewRun(id, *tier, p, roots, mods)
+		run.Seed = seed
+		run.Start = t0
+		run.Eff = et
+		run.VerifDir = *verif
+		if rerr != nil {
+			run.Undecide("roots", "roots|discovery", "", rerr.Error())
+		}
+		func() {
+			defer func() {
+				if x := recover(); x != nil {
+					run.Undecide("panic", "panic|"+id, "", fmt.Sprint("checker panic: ", x))
 				}
+			}()
+			chk(run)
+		}()
+		if c := run.Finish(); c > exit {
+			exit = c
+		}
+	}
+	os.Exit(exit)
+}
+
+func dumpTerms(p *prog.Program, mods *term.Mods, name string) {
+	f := p.Func(name)
+	if f == nil {
+		fmt.Println("no func", name)
+		return
+	}
+	r := term.NewResolver(p, mods, f)
+	for _, b := range f.Blocks {
+		succ := ""
+		for _, s := range b.Succs {
+			succ += fmt.Sprint(" b", s.Index)
+		}
+		fmt.Printf(" b%d ->%s\n", b.Index, succ)
+		for _, ins := range b.Instrs {
+			switch x := ins.(type) {
+			case *ssa.If:
+				fmt.Printf("  b%d %s IF %s\n", b.Index, p.Pos(x.Cond.Pos()), r.Of(x.Cond))
+			case *ssa.Call:
+				fmt.Printf("  b%d %s CALL %s\n", b.Index, p.Pos(x.Pos()), r.Of(x))
+			case *ssa.Store:
+				fmt.Printf("  b%d %s STORE %s := %s\n", b.Index, p.Pos(x.Pos()), r.Of(x.Addr), r.Of(x.Val))
+			case *ssa.Return:
+				s := ""
+				for _, v := range x.Results {
+					s += r.Of(v).String() + "; "
+				}
+				fmt.Printf("  b%d %s RETURN %s\n", b.Index, p.Pos(x.Pos()), s)
 			}
 		}
 	}
